@@ -34,7 +34,7 @@ enum Kind {
     Bin(usize),
 }
 
-pub const BYTE_CLASSES: &[&str] = &["near_modulus", "lengths", "uniform_len", "valid_mutated", "multiblock_reduce"];
+pub const BYTE_CLASSES: &[&str] = &["near_modulus", "lengths", "uniform_len", "valid_mutated", "multiblock_reduce", "multiblock_words"];
 
 /// byte-string strategy around a modulus q with nominal encoding length `l`
 pub fn bytes_strategy(q: &BigUint, l: usize, class: usize) -> BoxedStrategy<Vec<u8>> {
@@ -103,6 +103,30 @@ pub fn bytes_strategy(q: &BigUint, l: usize, class: usize) -> BoxedStrategy<Vec<
                         }
                     }
                     b
+                })
+                .boxed()
+        }
+        "multiblock_words" => {
+            // multi-block inputs built from 64-bit (or 32-bit) words taken from boundary sets: the folds of decode_reduce then
+            // produce carries that run through whole limbs (a fold that overflows 2^256 with a low limb close to 2^64, ...)
+            let word = |w: usize| {
+                prop_oneof![
+                    3 => Just(vec![0u8; w]),
+                    3 => Just(vec![0xFFu8; w]),
+                    1 => (0u8..8).prop_map(move |c| { let mut v = vec![0xFFu8; w]; v[0] = 0xFF - c; v }),
+                    1 => (0u8..8).prop_map(move |c| { let mut v = vec![0u8; w]; v[0] = c; v }),
+                    1 => Just({ let mut v = vec![0u8; w]; v[w - 1] = 0x80; v }),
+                    1 => Just({ let mut v = vec![0xFFu8; w]; v[w - 1] = 0x7F; v }),
+                    2 => prop::collection::vec(any::<u8>(), w),
+                ]
+            };
+            (prop::sample::select(vec![8usize, 8, 8, 4]), 1usize..(4 * l + 16), any::<bool>())
+                .prop_flat_map(move |(w, n, from_top)| {
+                    prop::collection::vec(word(w), (n + w - 1) / w).prop_map(move |ws| {
+                        let mut b: Vec<u8> = ws.concat();
+                        if from_top { b.drain(..b.len() - n); } else { b.truncate(n); }
+                        b
+                    })
                 })
                 .boxed()
         }
